@@ -867,6 +867,70 @@ pub mod t20 {
         Ok(())
     }
 }
+pub mod g8 {
+    pub enum Cell {
+        Concatenation(usize, usize),
+        List(Vec<usize>),
+        Number(i32),
+    }
+    pub fn ok_flat_one_level(cells: &[Cell], root: usize) -> Vec<usize> {
+        let mut stack = vec![root];
+        let mut items = vec![];
+        while let Some(index) = stack.pop() {
+            match &cells[index] {
+                Cell::Concatenation(left, right) => {
+                    stack.push(*right);
+                    stack.push(*left);
+                }
+                Cell::List(list_items) => {
+                    for item in list_items {
+                        items.push(*item);
+                    }
+                }
+                _ => items.push(index),
+            }
+        }
+        items
+    }
+    /// list items are queued on the work stack: a list among them is taken apart too
+    pub fn ctl_requeues_list_items(cells: &[Cell], root: usize) -> Vec<usize> {
+        let mut stack = vec![root];
+        let mut items = vec![];
+        while let Some(index) = stack.pop() {
+            match &cells[index] {
+                Cell::Concatenation(left, right) => {
+                    stack.push(*right);
+                    stack.push(*left);
+                }
+                Cell::List(list_items) => {
+                    stack.extend(list_items.iter().rev().copied());
+                }
+                _ => items.push(index),
+            }
+        }
+        items
+    }
+}
+pub mod a15 {
+    use garnish_lang_traits::{GarnishData, GarnishDataType};
+    pub fn ok_always_stores<D: GarnishData>(this: &mut D, r: D::Size) -> Result<Option<D::Size>, D::Error> {
+        match this.get_current_value_mut() {
+            None => return Err(this.get_data_type(r).err().unwrap()),
+            Some(v) => *v = r,
+        }
+        Ok(None)
+    }
+    /// a unit result is not handed on
+    pub fn ctl_skips_unit<D: GarnishData>(this: &mut D, r: D::Size) -> Result<Option<D::Size>, D::Error> {
+        let produced = this.get_data_type(r.clone())?;
+        match this.get_current_value_mut() {
+            None => return Err(this.get_data_type(r).err().unwrap()),
+            Some(_) if produced == GarnishDataType::Unit => (),
+            Some(v) => *v = r,
+        }
+        Ok(None)
+    }
+}
 pub mod g4c {
     use garnish_lang_traits::{GarnishData, TypeConstants};
     pub fn ctl_no_lower_bound<D: GarnishData>(this: &D, list: D::Size, index: D::Number) -> Result<Option<D::Size>, D::Error> {
